@@ -2,7 +2,7 @@ SPECIFICATION Spec
 CONSTANTS
   Blocks = {1, 2, 3}
   Objs = {1, 2}
-  MaxOps = 8
+  MaxOps = 10
   PMgrs = {"p1", "p2"}
   Docs = {1}
   MaxK = 0
